@@ -111,9 +111,24 @@ pub fn differential(s: &str, recs: &[Rec], outs: &[(String, bool)], obs: &mut Ob
                 }
             } else if !refparse::has_subsecond_date(&pat) && !has_date(&pat) {
                 // thread names depend on the caller
+            } else if no_thread && !refparse::has_subsecond_date(&pat) {
+                // dates of whole-second granularity: the meaning is computable for the seconds around "now"
+                let now = std::time::SystemTime::now().duration_since(std::time::UNIX_EPOCH).unwrap().as_secs() as i64;
+                for (rec, (out, ok)) in recs.iter().zip(outs.iter()) {
+                    ensure!(*ok, "C11:wellformed-encode-error", "pattern {:?} is well-formed by the documented grammar but encode returned an error", s);
+                    let wants: Vec<String> = (-3..=1).map(|dt| render(&pat, rec, &Env { thread_name: "main".into(), debug_build: cfg!(debug_assertions), now_secs: now + dt })).collect();
+                    ensure!(
+                        wants.iter().any(|w| w == out),
+                        if out.contains("{ERROR: ") && !wants[0].contains("{ERROR: ") { "C11:false-error" } else { "C11:wellformed-output-differs" },
+                        "pattern {:?} is well-formed by the documented grammar: output {:?}, meaning (at unix {}) {:?}", s, out, now, wants[3]
+                    );
+                }
             } else {
+                // sub-second dates / thread names: only the error marker can be judged, and only where no literal
+                // brace of the pattern can produce the same text
+                let literal_brace = s.contains("{{") || s.contains("\\{") || s.contains("ERROR");
                 for (out, ok) in outs {
-                    ensure!(*ok && (!out.contains("{ERROR:") || s.contains("ERROR")), "C11:false-error", "pattern {:?} is well-formed by the documented grammar but the output shows an error: {:?}", s, out);
+                    ensure!(*ok && (literal_brace || !out.contains("{ERROR: ")), "C11:false-error", "pattern {:?} is well-formed by the documented grammar but the output shows an error: {:?}", s, out);
                 }
             }
         }
@@ -192,11 +207,13 @@ pub struct Broken {
     pub rec: Rec,
 }
 
-pub const BREAKERS: [&str; 36] = [
+pub const BREAKERS: [&str; 41] = [
     "{m:99999999999999999999.3}", "{m:_<18446744073709551616.3}", "{m:3.99999999999999999999}", "{l:>99999999999999999999.99999999999999999999}", "{(x):18446744073709551616}", "{m:0.18446744073709551616}",
     "}", ")", "(", "\\x", "\\", "{nope}", "{zz9}", "{m(x)}", "{l()}", "{h}", "{D}", "{R}", "{}", "{(a)(b)}", "{d(%Y)(mars)}", "{d(%Y)()}",
     "{d(%Y)(utc)(x)}", "{X}", "{X()}", "{X(a)(b)(c)}", "{X({m})}", "{m:5", "{m:>", "{(abc", "{m:5.x}", "{m:x5}", "{m 5}", "{h(a)(b)}",
     "{d(%Y)({m})}", "{m:-5}",
+    // a zone name followed by more: the argument as a whole is not a zone
+    "{d(%Y)(utc{m})}", "{d(%Y)(local{{)}", "{d(%Y)(utc\\))}", "{d(%Y)(local{d(%Y)(utc)})}", "{d(%Y)(utcutc)}",
 ];
 
 pub fn broken_strategy() -> impl Strategy<Value = Broken> {
@@ -358,7 +375,7 @@ pub fn replay(part: &str, case: serde_json::Value) -> Option<CaseResult> {
 pub fn meta() -> EvidenceMeta {
     EvidenceMeta {
         level: "exploration",
-        rule: "three sources, each under both build profiles (overflow checks on/off): (1) exhaustive: every string over the 14 syntax symbols up to the length bound; (2) broken: generated valid pattern AST (rendered by the reference) + one of 30 breaker tokens (lone special, unknown formatter, wrong arity, bad zone, unterminated formatter, malformed spec) + generated suffix: output must start with the reference rendering of the prefix and show {ERROR: after it, or encode must return Err; (3) soup: arbitrary Unicode strings, token soup incl. 20-digit widths and strftime fragments, and 1-3 character edits of valid patterns. Oracle everywhere: catch_unwind around PatternEncoder::new and encode never unwinds; output valid UTF-8. Encoding is skipped when an explicit digit run exceeds 4096 (sanity bound of the statement). non-trivial = output holds both an error marker and other text, or a digit run >= 10 digits, or a % inside a date argument; distinct = FNV hash".into(),
+        rule: "three sources, each under both build profiles (overflow checks on/off): (1) exhaustive: every string over the 14 syntax symbols up to the length bound; (2) broken: generated valid pattern AST (rendered by the reference) + one of 41 breaker tokens (lone special, unknown formatter, wrong arity, bad zone, unterminated formatter, malformed spec) + generated suffix: output must start with the reference rendering of the prefix and show {ERROR: after it, or encode must return Err; (3) soup: arbitrary Unicode strings, token soup incl. 20-digit widths and strftime fragments, and 1-3 character edits of valid patterns. Oracle everywhere: catch_unwind around PatternEncoder::new and encode never unwinds; output valid UTF-8. Encoding is skipped when an explicit digit run exceeds 4096 (sanity bound of the statement). non-trivial = output holds both an error marker and other text, or a digit run >= 10 digits, or a % inside a date argument; distinct = FNV hash".into(),
         assumptions: vec!["panics are observed through catch_unwind (aborts would kill the worker: exit 2)".into()],
         mutants_caught: vec![],
     }
